@@ -337,6 +337,16 @@ void talloc_set_destructor(const void *ptr, talloc_destructor_f destructor)
 		t->destructor = destructor;
 }
 
+/* move node under new parent */
+static void move_child(struct THeader *t, struct THeader *tnew, struct THeader *told)
+{
+	list_del(&t->node);
+	add_child(tnew, t);
+	t->parent = tnew;
+
+	move_memlimit(t, tnew, told);
+}
+
 /* attach undying child to live parent */
 static void throw_child(struct THeader *t)
 {
@@ -344,7 +354,12 @@ static void throw_child(struct THeader *t)
 
 	while (parent && has_flags(parent, FLAG_PENDING))
 		parent = parent->parent;
-	talloc_reparent(hdr2ptr(t->parent), hdr2ptr(parent), hdr2ptr(t));
+	if (!parent)
+		parent = ptr2hdr(null_context);
+
+	/* old parent goes away, so this must not fail like talloc_reparent() can */
+	if (parent != t->parent)
+		move_child(t, parent, t->parent);
 }
 
 static void free_children(const void *ptr, bool free_name, const char *source_pos)
@@ -596,11 +611,7 @@ void *talloc_reparent(const void *old_parent, const void *new_parent, const void
 	}
 
 	/* change parent */
-	list_del(&t->node);
-	add_child(tnew, t);
-	t->parent = tnew;
-
-	move_memlimit(t, tnew, told);
+	move_child(t, tnew, told);
 
 	return (void *)ptr;
 }
